@@ -354,4 +354,36 @@ theorem centroid_mean (isZero : ℝ → Bool) (hz : ∀ x, isZero x = true ↔ x
     rw [hz]; linarith
   simp [hnz]
 
+/-! ### the code as found (snapshot b553572): witness of the two defects, exact arithmetic over `Rat`
+
+  Four atoms whose centroid is (5/2, 1/2, 1/2); the targets are the atoms turned by 90° about z and shifted by
+  (10, 0, 0). `fit90` hands both versions the correct rotation (the matrix `qtrfit` returns for this turn), `id`
+  stands for `sqrt` (so the second component is the mean-square deviation). -/
+
+def wSrc : List (P3 Rat) := [⟨2, 0, 0⟩, ⟨4, 0, 0⟩, ⟨2, 2, 0⟩, ⟨2, 0, 2⟩]
+def wTgt : List (P3 Rat) := wSrc.map fun p => ⟨-p.y + 10, p.x, p.z⟩
+def wU : M3 Rat := ⟨0, 1, 0, -1, 0, 0, 0, 0, 1⟩
+def fit90 : List (P3 Rat) → List (P3 Rat) → Option (M3 Rat) := fun _ _ => some wU
+def isZeroQ (x : Rat) : Bool := x == 0
+
+/-- `wU` is what the fit has to return here: applied by `rotmol` it maps the centred atoms onto the centred targets -/
+theorem witness_rotation_correct :
+    rotmol (minusVect wSrc ⟨5/2, 1/2, 1/2⟩) wU = minusVect wTgt ⟨19/2, 5/2, 1/2⟩ := by decide +kernel
+
+/-- the repaired `fit_fragment` puts the atoms on their targets and reports deviation 0 -/
+theorem fitFragment_ok_on : fitFragment isZeroQ id fit90 wSrc wSrc wTgt = some (wTgt, 0) := by decide +kernel
+
+/-- the code as found: given the correct rotation it puts the atoms elsewhere (off by `R·p̄`) and reports 3 (mean square) where the deviation of what it returns is different and that of a correct placement 0 -/
+theorem fitFragmentOld_fails_on :
+    fitFragmentOld isZeroQ id fit90 wSrc wSrc wTgt
+      = some ([⟨19/2, 9/2, 1/2⟩, ⟨19/2, 13/2, 1/2⟩, ⟨15/2, 9/2, 1/2⟩, ⟨19/2, 9/2, 5/2⟩], 3) := by decide +kernel
+
+/-- … so the statement of `fit_fragment_places`/`exact copy` is false for it -/
+theorem fitFragmentOld_not_places :
+    ¬ (∀ out rms, fitFragmentOld isZeroQ id fit90 wSrc wSrc wTgt = some (out, rms) → out = wTgt ∧ rms = 0) := by
+  intro h
+  have := h _ _ fitFragmentOld_fails_on
+  revert this
+  decide +kernel
+
 end Shelx.C20
